@@ -832,7 +832,16 @@ def run(chk):
     chk.count("payloads.invalid", sum(1 for v in validtbl.values() if v is None))
 
     # ================================================================== implementation, pass 2
-    groups = [bc_dec, bc_rt, en_de, en_rt, jo_rt, jo_de, job_de, job_rt, actor]
+    # the writer side and the length check on their own
+    fr_enc, cfl = Cases("frame enc"), Cases("cfl")
+    for p0 in [p0 for p0 in cand if validtbl[p0] is not None][:200 * N]:
+        fr_enc.add(f"frame {hexs(p0)}", f"Some (enc_frame {blist(validtbl[p0])})", p0)
+    for _ in range(300 * N):
+        mx = rng.choice([0, 1, 100, 16 * 1024 * 1024, (1 << 63) - 2, (1 << 63) - 1, 1 << 63, U64 - 1, rng.getrandbits(64)])
+        ln = rng.choice([0, mx, (mx + 1) % U64, max(mx, 1) - 1, (1 << 63) - 1, 1 << 63, U64 - 1, rng.getrandbits(64),
+                         rng.getrandbits(rng.choice([1, 8, 24, 40, 63]))])
+        cfl.add(f"cfl {ln} {mx}", f"checked_frame_length {ln} {mx}", (ln, mx))
+    groups = [bc_dec, bc_rt, en_de, en_rt, jo_rt, jo_de, job_de, job_rt, actor, fr_enc, cfl]
     lines = list(ex_lines)
     for g in groups:
         lines += g.lines
@@ -1103,6 +1112,19 @@ def run(chk):
             report_opts(chk, hard, sig, d)
         elif back != y:
             soft("Job round trip differs from the model", d)
+    # ---- encode_network_message, checked_frame_length
+    for g in (fr_enc, cfl):
+        got, mod = ans[g.kind], model_of(g)
+        for ln, meta, x, y in zip(g.lines, g.meta, got, mod):
+            chk.coverage["evaluations"] += 1
+            chk.count(g.kind.replace(" ", "_"))
+            distinct.add((g.kind, meta))
+            if pt(x) != y:
+                d = {"harness_line": ln, "impl": x, "model": show_term(y)}
+                if g.kind == "cfl" and meta[0] > meta[1] and x == "None":
+                    hard("checked_frame_length accepts a length above the maximum", d)
+                else:
+                    soft(f"{g.kind} differs from the model", d)
     # ---- live actors
     got, mod = ans[actor.kind], model_of(actor)
     for ln, (who, msgs), x, y in zip(actor.lines, actor.meta, got, mod):
